@@ -391,7 +391,7 @@ func runAll(dir string, qs []*Query, timeout time.Duration, par int) []Verdict {
 			v := runQuery(dir, q, timeout, false)
 			if !q.Cover && v.Result != "unsat" {
 				// retry once with 6x timeout and ask for a model
-				v2 := runQuery(dir, q, 6*timeout, true)
+				v2 := runQuery(dir, q, 3*timeout, true)
 				v2.Secs += v.Secs
 				v = v2
 			}
